@@ -149,6 +149,17 @@ Theorem step_arith_logic_immediate_word :
     exists s', sem_ref (IAlu2I o SW imm rd) 4 s = Some s' /\ step s = Ok n (set_opc (pc s + 2) s').
 Proof. exact step_alu2_imm_w_proof. Qed.
 
+(* DIVXU.W with non-zero divisor and fitting quotient *)
+Theorem step_divxu_word :
+  forall s w w1 w2 w3 w4 rs rd n s',
+    cpu_ok s -> bus_bytes_ok s -> fault s = false -> pc s mod 2 = 0 -> 0 <= pc s -> pc s + 2 < 4294967296 ->
+    mem_read SW s (pc s) = Some w ->
+    decode_ref w w1 w2 w3 w4 = Some (IDivxu SW rs rd, 2) ->
+    sem_ref (IDivxu SW rs rd) 2 s = Some s' ->
+    mul_suffix SW (post_fetch s) = Ok n (post_fetch s) ->
+    step s = Ok n (set_opc (pc s) s').
+Proof. exact step_divxu_w_proof. Qed.
+
 Print Assumptions arith2_kernel.
 Print Assumptions arith1_kernel.
 Print Assumptions divxu_kernel.
@@ -162,3 +173,4 @@ Print Assumptions step_adds_subs.
 Print Assumptions step_mulxu.
 Print Assumptions step_divxu_byte.
 Print Assumptions step_arith_logic_immediate_word.
+Print Assumptions step_divxu_word.
